@@ -133,6 +133,18 @@ def run_C01(ctx):
     big = random_world(ctx, tiered(ctx, 30, 300), 300,
                        lambda a, b, r, idx: [gen.raw_line(alg, a, b, r, idx=idx) for alg in "MP"])
     C.evaluate(ctx, "raw-random-300", big, rel)
+    # very unbalanced sizes: nothing / one item / a handful against thousands
+    unb = []
+    for n in tiered(ctx, [3000], [3000, 20000]):
+        long_ = gen.rand_seq(ctx.rng, n, ctx.rng.choice([3, 1000]))
+        for short in ([], [long_[n // 2]], [5], long_[:2], [long_[-1], long_[0]], long_[n // 3:n // 3 + 7]):
+            for alg in ALGS:
+                if alg == "L" and n > 5000:
+                    continue
+                unb.append(gen.raw_line(alg, short, long_))
+                unb.append(gen.raw_line(alg, long_, short))
+                ctx.count("raw:unbalanced-%d" % n, 2)
+    C.evaluate(ctx, "raw-unbalanced", unb, rel, x=False, cap=120)
 
 
 SPECS["C01"] = dict(
